@@ -10,6 +10,7 @@
   `ValidateEntropySize`/`DecodeWords` (`Gen/Guards.lean`), the seed constants.
 -/
 import BtcVerif.Proofs.Bip39
+import BtcVerif.Proofs.Bip39Reference
 
 namespace BtcVerif.Props.C14
 open BtcVerif BtcVerif.Model.Bip39 BtcVerif.Proofs.Bip39
@@ -116,6 +117,43 @@ theorem bip39_accepts_iff_any_wordlist (wl : List Bytes) (hlen : wl.length = 204
 theorem bip39_go_instance (ws : List Bytes) (e : Bytes) :
     decodeGo ws = .ok e ↔ ValidLen e.length ∧ encodeGo e = .ok ws :=
   bip39_accepts_iff sha256First ws e
+
+/-! ### the reference encoding -/
+
+/-- **the mnemonic equals the BIP39 reference encoding.** For every hash function `sha256` with
+    32-byte output (the checksum byte being its first byte, as in the code), `EncodeToWords` returns
+    exactly the words the standard defines bit by bit — ENT ‖ first ENT/32 bits of `sha256(ENT)`,
+    groups of 11 bits, each an index into the word list — and refuses exactly the other sizes.
+    (For the instance the oracle runs, `csOf Prim.sha256 = sha256First` by `rfl`; that `Prim.sha256`
+    returns 32 bytes is not proved — `Prim/` is executable code — so the oracle additionally compares
+    model and `Spec.Bip39.encode` on every `bip39.enc` case.) -/
+theorem bip39_enc_eq_reference (sha256 : Bytes → Bytes) (hsha : ∀ x, (sha256 x).length = 32)
+    (e : Bytes) (ws : List Bytes) :
+    encodeW (csOf sha256) e = .ok ws ↔ Spec.Bip39.encode wordList sha256 e = some ws :=
+  encode_eq_reference wordList sha256 hsha e ws
+
+/-- a hash function satisfying the hypothesis, and the instance of the code -/
+example : ∀ x : Bytes, ((fun _ => List.replicate 32 (0xab : UInt8)) x).length = 32 := by
+  intro _; simp
+example : sha256First = csOf Prim.sha256 := rfl
+
+/-! ### generation -/
+
+/-- `GenerateMnemonic(rand, n)` (for `n` whose product with 32 fits Go's `int`) succeeds only for
+    12/15/18/21/24 words; it then returns `n` words and has consumed `4n/3` bytes of `rand` -/
+theorem generateMnemonic_sizes (csByte : Bytes → UInt8) (rand : Bytes) (n : Nat)
+    (hn : n < 288230376151711744) (ws : List Bytes)
+    (h : generateMnemonic wordList csByte rand (n : Int) = .ok ws) :
+    ValidCount n ∧ ws.length = n ∧ n * 4 / 3 ≤ rand.length :=
+  generateMnemonic_ok wordList csByte rand n hn ws h
+
+/-- and for those counts it succeeds whenever the reader delivers enough bytes; the result decodes
+    to exactly the bytes read -/
+theorem generateMnemonic_valid (csByte : Bytes → UInt8) (rand : Bytes) (n : Nat) (hc : ValidCount n)
+    (hr : n * 4 / 3 ≤ rand.length) :
+    ∃ ws, generateMnemonic wordList csByte rand (n : Int) = .ok ws ∧ ws.length = n ∧
+      decodeW csByte ws = .ok (rand.take (n * 4 / 3)) :=
+  generateMnemonic_succeeds wordList wordList_length wordList_nodup csByte rand n hc hr
 
 /-! ### the seed -/
 
